@@ -580,8 +580,19 @@ class Run:
             self.propagate_start_cancels(only=tid, force=True)
 
         if not self.sh.task_eff(tid):
-            for n in list(self.sh.stacks.get(tid, [])):
-                if n.kind == "group" and int(n.sid[1:]) in self.in_aexit:
+            # every scope whose cancellation would be visible to the task: its own stack and
+            # the ancestors up to (and including) the first shielded one
+            chain: list = []
+            n = self.sh.top(tid)
+            while n is not None:
+                chain.append(n)
+                if n.shield:
+                    break
+
+                n = n.parent
+
+            for n in chain:
+                if n.kind == "group" and n.sid[1:].isdigit() and int(n.sid[1:]) in self.in_aexit:
                     self.refresh_inferred(self.in_aexit[int(n.sid[1:])], depth + 1)
                     self.propagate_aexit_cancels(only=int(n.sid[1:]), force=True)
                 elif n.kind == "handle" and self.node_task.get(n.sid) in self.pending_start:
